@@ -378,3 +378,133 @@ func genStatus(r *rand.Rand, id string, size int, total int) []string {
 	g.add("obs %d", obsr)
 	return g.lines
 }
+
+var forgeRecipes = []string{"own", "copiedid", "copiedblock", "foreignkey", "otherlog", "badhash",
+	"mut-payload", "mut-time", "mut-clockid", "mut-next", "mut-refs", "mut-key", "mut-sig",
+	"mut-identid", "mut-identpk", "mut-identsig", "mut-logid"}
+
+// genForge: write lists of every shape, non-writers, forged / tampered / foreign entries delivered by
+// every route, alone, mixed with valid heads at any position, or hidden behind a colluding writer's
+// entry; then an honest re-announcement of everything.
+func genForge(r *rand.Rand, id string, size int, total int) []string {
+	g := &Gen{r: r}
+	perm := g.r.Perm(total)
+	att := perm[0]            // the attacker: opens the database but never writes through its store
+	members := perm[1:]       // replicas that use the database normally
+	kind := []string{"kv", "log"}[g.pick(2)]
+	// write list shape
+	var writers []int
+	acl := ""
+	switch g.pick(5) {
+	case 0:
+		acl = "*"
+		writers = append([]int{}, members...)
+	case 1: // creator only
+		writers = []int{members[0]}
+		acl = joinInts(writers)
+	case 2: // the attacker is a legitimate writer too (tampering recipes need a valid original)
+		writers = append([]int{att}, members[:1+g.pick(len(members))]...)
+		acl = joinInts(writers)
+	default:
+		writers = members[:1+g.pick(len(members))]
+		acl = joinInts(writers)
+	}
+	isWriter := map[int]bool{}
+	for _, p := range writers {
+		isWriter[p] = true
+	}
+	if acl == "*" {
+		isWriter[att] = true
+	}
+	peers := append([]int{members[0]}, members[1:]...)
+	peers = append(peers, att)
+	g.add("scn %s kind=%s acl=%s peers=%s", id, kind, acl, joinInts(peers))
+	keys := g.keys(2)
+	write := func(p int) {
+		if kind == "kv" {
+			g.add("put %d %s %s", p, hx(keys[g.pick(2)]), hx(g.value()))
+		} else {
+			g.add("add %d %s", p, hx(g.value()))
+		}
+	}
+	honestWriters := []int{}
+	for _, p := range members {
+		if isWriter[p] {
+			honestWriters = append(honestWriters, p)
+		}
+	}
+	// one writer is reserved for collusion: it only ever writes through forged-but-honest entries, so
+	// that no identity writes through two logs (which could give two entries the same (time, writer))
+	colluder := -1
+	if len(honestWriters) > 1 {
+		colluder = honestWriters[len(honestWriters)-1]
+		honestWriters = honestWriters[:len(honestWriters)-1]
+	}
+	steps := 2 + g.pick(size)
+	nForged := 0
+	entryCount := 0 // upper bound on entries created so far is unknown to the generator; use symbolic @last
+	_ = entryCount
+	for i := 0; i < steps; i++ {
+		c := g.pick(100)
+		switch {
+		case c < 30 && len(honestWriters) > 0:
+			write(honestWriters[g.pick(len(honestWriters))])
+		case c < 40:
+			// a local write by someone who may not be a writer
+			if p := members[g.pick(len(members))]; p != colluder {
+				write(p)
+			}
+		case c < 55 && len(members) > 1:
+			p := members[g.pick(len(members))]
+			q := members[g.pick(len(members))]
+			if p != q {
+				g.add("sync %d %d", p, q)
+			}
+		default:
+			rec := forgeRecipes[g.pick(len(forgeRecipes))]
+			as := members[g.pick(len(members))]
+			if len(honestWriters) > 0 && g.pick(3) > 0 {
+				as = honestWriters[g.pick(len(honestWriters))]
+			}
+			base := "none"
+			if g.pick(2) == 0 {
+				base = fmt.Sprint(members[g.pick(len(members))])
+			}
+			g.add("forge %d recipe=%s as=%d base=%s k=%s v=%s", att, rec, as, base, hx(keys[g.pick(2)]), hx(g.value()))
+			nForged++
+			q := members[g.pick(len(members))]
+			route := []string{"sync", "pub", "dc"}[g.pick(3)]
+			switch g.pick(4) {
+			case 0: // alone
+				g.add("inject %d heads=@last route=%s from=%d", q, route, att)
+			case 1: // mixed with the valid heads of some member, forged first
+				g.add("inject %d heads=@last,@heads%d route=%s from=%d", q, members[g.pick(len(members))], route, att)
+			case 2: // valid heads first
+				g.add("inject %d heads=@heads%d,@last route=%s from=%d", q, members[g.pick(len(members))], route, att)
+			case 3: // hidden behind a colluding writer's honest entry (a wrongly addressed entry cannot be
+				// fetched by its address, so `badhash` is only ever delivered as a head)
+				if colluder >= 0 && rec != "badhash" {
+					cw := colluder
+					g.add("forge %d recipe=honest base=%d extra=@last k=%s v=%s", cw, cw, hx(keys[0]), hx(g.value()))
+					g.add("inject %d heads=@last route=%s from=%d", q, route, cw)
+				} else {
+					g.add("inject %d heads=@last route=%s from=%d", q, route, att)
+				}
+			}
+		}
+		g.obsAll(members)
+	}
+	// honest re-announcement of everything, twice
+	for round := 0; round < 2; round++ {
+		for _, p := range members {
+			for _, q := range members {
+				if p != q {
+					g.add("sync %d %d", p, q)
+				}
+			}
+		}
+	}
+	g.obsAll(members)
+	g.add("final10")
+	return g.lines
+}
